@@ -138,3 +138,27 @@ def check_c11(world):
         if app.server and (app.server, app.name) not in rec_list:
             world.flag('placed-without-record', 'Loader.load_model',
                        {'app': world.tmpl[app.name], 'server': app.server})
+
+
+def mon_c05_published(world, kind):
+    """C05 at master level: the identity published for a placed instance is
+    the one the model holds, and published identities of a group are unique."""
+    cell = world.master.cell
+    dump = placement_dump(world)
+    seen = {}
+    for (s, a), (data, _n) in dump.items():
+        app = cell.apps.get(a)
+        if app is None or not app.identity_group or app.server != s:
+            continue
+        ident = (data or {}).get('identity')
+        if ident != app.identity:
+            world.flag('published-identity-differs', 'Master.' + kind,
+                       {'app': world.tmpl[a], 'model': app.identity,
+                        'stored': ident})
+        if ident is not None:
+            seen.setdefault((app.identity_group, ident), []).append(a)
+    for (g, ident), apps in seen.items():
+        if len(apps) > 1:
+            world.flag('published-identity-duplicate', 'Master.' + kind,
+                       {'group': g, 'identity': ident,
+                        'apps': [world.tmpl[x] for x in apps]})
